@@ -557,4 +557,20 @@ example : (mpq_add exa 0 1 2 3 4 5 6 7 8 9).ok = true ∧ valOf (mpq_add exa 0 1
     valOf (mpq_add exa 0 1 2 3 4 5 6 7 8 9) 1 = 1 := by decide +kernel
 example : (mpq_aors 0 1 false exa 0 1 2 3 4 5 6 7 8 9).ok = false := by decide +kernel
 
+/-! ## mpq_mul_2exp / mpq_div_2exp (mpq/md_2exp.c), non-zero arm: run only (ops as6_mul_2exp / as6_div_2exp) -/
+
+/-- 5/(3·B) in one variable (0, 1): the denominator has a whole zero low limb -/
+def ex2e : St := ⟨fun i => if i = 0 then ⟨1, 0, ⟨1, [5]⟩⟩ else ⟨2, 0, ⟨2, [0, 3]⟩⟩, true⟩
+
+-- in place, n = 64: the skip loop drops the zero limb (p = rsrc_ptr + 1), the limb 3 is odd, so the copy arm is taken and
+-- `p != rdst_ptr` (md_2exp.c:57) copies the limb down: 5/3
+example : (mpq_mul_2exp ex2e 0 1 0 1 64).ok = true ∧ view ((mpq_mul_2exp ex2e 0 1 0 1 64).h 1) = ⟨2, 1, [3]⟩ ∧
+    view ((mpq_mul_2exp ex2e 0 1 0 1 64).h 0) = ⟨1, 1, [5]⟩ := by decide
+-- negative (the defect repaired by commit 62c3bba): the test on the VARIABLES `rdst != rsrc` skips the copy — every access is
+-- in range, but the denominator is left as the one limb 0 with SIZ = 1: malformed
+example : (mord_2exp false ex2e 0 1 0 1 64).ok = true ∧ view ((mord_2exp false ex2e 0 1 0 1 64).h 1) = ⟨2, 1, [0]⟩ ∧
+    ¬ Mpz.WF (view ((mord_2exp false ex2e 0 1 0 1 64).h 1)) := by decide
+-- 5/(3·B) · 2^70 = 5·2^6/3: skip one limb, then the numerator is shifted left by the remaining 6 bits
+example : valOf (mpq_mul_2exp ex2e 0 1 0 1 70) 0 = 320 ∧ valOf (mpq_mul_2exp ex2e 0 1 0 1 70) 1 = 3 := by decide
+
 end Mpir.AllocSafe6
